@@ -49,11 +49,33 @@ def run_check(pid, root, evdir):
     return r.returncode, r.stdout + r.stderr
 
 
+def seeded_entries(pid):
+    """the independently produced changes kept under /verif/seeded: breaking ones must be reported, refactorings not"""
+    out = []
+    sdir = os.path.join(HERE, "seeded")
+    for name in sorted(os.listdir(sdir)) if os.path.isdir(sdir) else []:
+        d = os.path.join(sdir, name)
+        patch = os.path.join(d, "patch.diff")
+        if not name.startswith(pid + "-") or not os.path.exists(patch):
+            continue
+        kind = "neutral" if name.split("-")[1].startswith("N") else "mutant"
+        out.append({"id": "seed-" + name, "prop": pid, "rule": None, "kind": kind, "edits": [], "patch": patch})
+    return out
+
+
+def apply_patch(root, patch):
+    r = subprocess.run(["git", "apply", "--whitespace=nowarn", patch], cwd=root, capture_output=True, text=True)
+    return r.returncode == 0
+
+
 def one(args):
     pid, repo, base, m = args
     root = make_scratch(repo, base)
     try:
-        if not apply_edits(root, m["edits"]):
+        if m.get("patch"):
+            if not apply_patch(root, m["patch"]):
+                return m, "skipped", "patch no longer applies"
+        elif not apply_edits(root, m["edits"]):
             return m, "skipped", "edit site no longer exists"
         # the variant must still compile
         for rel, _o, _n in m["edits"]:
@@ -73,7 +95,7 @@ def run(pid, repo, seed, clean, only=None):
 
     if not clean:
         return {"skipped": "the tree itself is in violation / undecided; self-test needs a clean tree"}
-    cat = [m for m in mutants.CATALOGUE if m["prop"] == pid and (only is None or m["id"] in only)]
+    cat = [m for m in mutants.CATALOGUE + seeded_entries(pid) if m["prop"] == pid and (only is None or m["id"] in only)]
     random.Random(seed).shuffle(cat)
     base = tempfile.mkdtemp(prefix="cobald-selftest-")
     res = {"mutants": 0, "detected": 0, "neutral": 0, "silent": 0, "missed": [], "noisy": [], "skipped": [], "undecided_on_mutant": [], "detail": []}
